@@ -316,8 +316,11 @@ class ShareableThreadLock:
                 self._acquired_by[thread_id] -= 1
                 if not self._acquired_by[thread_id]:
                     del self._acquired_by[thread_id]  # NOTE: GC
-                    if not self._acquired_by:
-                        self._condition.notify_all()
+                    # NOTE: An exclusive waiter only waits for the OTHER threads
+                    # to leave (it may itself hold the lock), so we must wake
+                    # waiters up whenever a thread leaves, not only when
+                    # nobody is left.
+                    self._condition.notify_all()
             finally:
                 self._condition.release()
 
